@@ -20,7 +20,7 @@ import penman
 from penman import layout
 from penman.tree import Tree
 
-from pmon import canon
+from pmon import canon, core as _core
 from pmon.gen import trees as T, models as M, graphs as G
 from pmon.ref import cli as RC, lexer as R, interp
 from pmon.checks import _trees
@@ -244,7 +244,7 @@ def oracle(ctx, kind, p):
         if p['i'] % 25 == 0 and not uses_random(o):
             outs = []
             for hs in ('0', '99'):
-                env = dict(os.environ, PYTHONHASHSEED=hs, PYTHONPATH='/repo', PYTHONIOENCODING='utf-8')
+                env = dict(os.environ, PYTHONHASHSEED=hs, PYTHONPATH=_core.REPO, PYTHONIOENCODING='utf-8')
                 r = subprocess.run([sys.executable, '-m', 'penman'] + argv_full,
                                    input=(stdin_text or '').encode('utf-8'), capture_output=True, env=env,
                                    cwd=tmpdir, timeout=300)
